@@ -1107,6 +1107,11 @@ const (
 
 // reachGame generalises reachAgainst: mode(b) says how block b's branch is resolved.
 func reachGame(f *ssa.Function, target ssa.Instruction, mode func(b *ssa.BasicBlock) int) bool {
+	return len(f.Blocks) > 0 && reachGameFrom(f, f.Blocks[0], target, mode)
+}
+
+// reachGameFrom: the same game, started at block start instead of the function entry.
+func reachGameFrom(f *ssa.Function, start *ssa.BasicBlock, target ssa.Instruction, mode func(b *ssa.BasicBlock) int) bool {
 	win := map[*ssa.BasicBlock]bool{target.Block(): true}
 	for changed := true; changed; {
 		changed = false
@@ -1136,5 +1141,5 @@ func reachGame(f *ssa.Function, target ssa.Instruction, mode func(b *ssa.BasicBl
 			}
 		}
 	}
-	return len(f.Blocks) > 0 && win[f.Blocks[0]]
+	return win[start]
 }
